@@ -18,6 +18,18 @@ theorem quiet_append {a b : List Effect} (ha : quiet a) (hb : quiet b) : quiet (
   · exact ha x h
   · exact hb x h
 
+/-- consistency of the block-request fields: `onStop` armed, a handler or a reader only with an
+    outstanding request. -/
+structure BlkInv (s : State) : Prop where
+  armed : s.onStopArmed = true → s.blockReq.isSome = true ∧ s.blockHandler = true
+  reader : s.blockReader = true → s.blockReq.isSome = true
+  handler : s.blockHandler = true → s.blockReq.isSome = true
+
+theorem BlkInv.same {s s' : State} (h1 : s'.blockReq = s.blockReq) (h2 : s'.blockHandler = s.blockHandler)
+    (h3 : s'.blockReader = s.blockReader) (h4 : s'.onStopArmed = s.onStopArmed) (h : BlkInv s) : BlkInv s' :=
+  ⟨fun h' => by rw [h1, h2]; exact h.armed (h4 ▸ h'), fun h' => by rw [h1]; exact h.reader (h3 ▸ h'),
+   fun h' => by rw [h1]; exact h.handler (h2 ▸ h')⟩
+
 /-- what a handler that does not go through `accept` may change. -/
 structure Frame (s s' : State) : Prop where
   table : s.verified = false → s'.table = s.table ∧ s'.blockReq = s.blockReq
@@ -29,14 +41,15 @@ structure Frame (s s' : State) : Prop where
   hs : s.hsComplete = true → s'.hsComplete = true
   stopped : s.stopped = true → s'.stopped = true
   keep : ∀ cmd, cmd ≠ ascii "block" → lookupCmd s'.table cmd = lookupCmd s.table cmd
+  blk : BlkInv s → BlkInv s'
 
-theorem Frame.refl (s : State) : Frame s s := ⟨fun _ => ⟨rfl, rfl⟩, rfl, rfl, rfl, rfl, rfl, id, id, fun _ _ => rfl⟩
+theorem Frame.refl (s : State) : Frame s s := ⟨fun _ => ⟨rfl, rfl⟩, rfl, rfl, rfl, rfl, rfl, id, id, fun _ _ => rfl, id⟩
 
 theorem Frame.trans {a b c : State} (h1 : Frame a b) (h2 : Frame b c) : Frame a c :=
   ⟨fun h => ⟨(h2.table (h1.verified ▸ h)).1.trans (h1.table h).1, (h2.table (h1.verified ▸ h)).2.trans (h1.table h).2⟩, h2.ready.trans h1.ready,
    h2.verified.trans h1.verified, h2.vo.trans h1.vo, h2.hh.trans h1.hh, h2.hasTx.trans h1.hasTx,
    fun h => h2.hs (h1.hs h), fun h => h2.stopped (h1.stopped h),
-   fun c hc => (h2.keep c hc).trans (h1.keep c hc)⟩
+   fun c hc => (h2.keep c hc).trans (h1.keep c hc), fun h => h2.blk (h1.blk h)⟩
 
 /-- the connection invariant. -/
 structure Inv (s : State) : Prop where
@@ -99,22 +112,22 @@ theorem hsConsume_spec (s : State) (v : Bool) : Frame s (hsConsume s v).1 ∧ qu
   cases v
   · simp only [Bool.false_eq_true, ↓reduceIte]
     split
-    · exact ⟨⟨fun _ => ⟨rfl, rfl⟩, rfl, rfl, rfl, rfl, rfl, fun _ => rfl, id, fun _ _ => rfl⟩, quiet_of_quietB rfl⟩
-    · exact ⟨⟨fun _ => ⟨rfl, rfl⟩, rfl, rfl, rfl, rfl, rfl, id, id, fun _ _ => rfl⟩, quiet_nil⟩
+    · exact ⟨⟨fun _ => ⟨rfl, rfl⟩, rfl, rfl, rfl, rfl, rfl, fun _ => rfl, id, fun _ _ => rfl, BlkInv.same rfl rfl rfl rfl⟩, quiet_of_quietB rfl⟩
+    · exact ⟨⟨fun _ => ⟨rfl, rfl⟩, rfl, rfl, rfl, rfl, rfl, id, id, fun _ _ => rfl, BlkInv.same rfl rfl rfl rfl⟩, quiet_nil⟩
   · simp only [↓reduceIte]
     by_cases h1 : s.verAckSent = true <;> by_cases h2 : s.verAckReceived = true <;>
       simp only [h1, h2, Bool.not_true, Bool.not_false, Bool.false_eq_true, ↓reduceIte, List.nil_append,
         List.cons_append]
-    · exact ⟨⟨fun _ => ⟨rfl, rfl⟩, rfl, rfl, rfl, rfl, rfl, fun _ => rfl, id, fun _ _ => rfl⟩, quiet_of_quietB rfl⟩
-    · exact ⟨⟨fun _ => ⟨rfl, rfl⟩, rfl, rfl, rfl, rfl, rfl, id, id, fun _ _ => rfl⟩, quiet_nil⟩
-    · exact ⟨⟨fun _ => ⟨rfl, rfl⟩, rfl, rfl, rfl, rfl, rfl, fun _ => rfl, id, fun _ _ => rfl⟩, quiet_of_quietB rfl⟩
-    · exact ⟨⟨fun _ => ⟨rfl, rfl⟩, rfl, rfl, rfl, rfl, rfl, id, id, fun _ _ => rfl⟩, quiet_of_quietB rfl⟩
+    · exact ⟨⟨fun _ => ⟨rfl, rfl⟩, rfl, rfl, rfl, rfl, rfl, fun _ => rfl, id, fun _ _ => rfl, BlkInv.same rfl rfl rfl rfl⟩, quiet_of_quietB rfl⟩
+    · exact ⟨⟨fun _ => ⟨rfl, rfl⟩, rfl, rfl, rfl, rfl, rfl, id, id, fun _ _ => rfl, BlkInv.same rfl rfl rfl rfl⟩, quiet_nil⟩
+    · exact ⟨⟨fun _ => ⟨rfl, rfl⟩, rfl, rfl, rfl, rfl, rfl, fun _ => rfl, id, fun _ _ => rfl, BlkInv.same rfl rfl rfl rfl⟩, quiet_of_quietB rfl⟩
+    · exact ⟨⟨fun _ => ⟨rfl, rfl⟩, rfl, rfl, rfl, rfl, rfl, id, id, fun _ _ => rfl, BlkInv.same rfl rfl rfl rfl⟩, quiet_of_quietB rfl⟩
 
 theorem hsPush_spec (s : State) (v : Bool) : Frame s (hsPush s v).1 ∧ quiet (hsPush s v).2 := by
   unfold hsPush
   split
   · split
-    · exact ⟨⟨fun _ => ⟨rfl, rfl⟩, rfl, rfl, rfl, rfl, rfl, id, id, fun _ _ => rfl⟩, quiet_nil⟩
+    · exact ⟨⟨fun _ => ⟨rfl, rfl⟩, rfl, rfl, rfl, rfl, rfl, id, id, fun _ _ => rfl, BlkInv.same rfl rfl rfl rfl⟩, quiet_nil⟩
     · exact ⟨Frame.refl s, quiet_nil⟩
   · exact hsConsume_spec s v
 
@@ -158,7 +171,7 @@ theorem hProtoconf_harmless (e : Env) (s : State) (L : Nat) (ck inp : Bytes) :
   · exact harmless_refl s
   · exact harmless_refl s
   · simp only []
-    split <;> exact ⟨⟨fun _ => ⟨rfl, rfl⟩, rfl, rfl, rfl, rfl, rfl, id, id, fun _ _ => rfl⟩, quiet_nil⟩
+    split <;> exact ⟨⟨fun _ => ⟨rfl, rfl⟩, rfl, rfl, rfl, rfl, rfl, id, id, fun _ _ => rfl, BlkInv.same rfl rfl rfl rfl⟩, quiet_nil⟩
 
 theorem hPing_harmless (e : Env) (s : State) (L : Nat) (ck inp : Bytes) :
     HP (Harmless s) (hPing e s L ck inp) := by
@@ -216,7 +229,7 @@ theorem trackLoop_framed (e : Env) (s : State) (k : Nat) (b : Bytes) (used : Nat
       · exact Frame.refl s
       · split
         · exact ih _ _ _
-        · exact ⟨fun _ => ⟨rfl, rfl⟩, rfl, rfl, rfl, rfl, rfl, id, fun _ => rfl, fun _ _ => rfl⟩
+        · exact ⟨fun _ => ⟨rfl, rfl⟩, rfl, rfl, rfl, rfl, rfl, id, fun _ => rfl, fun _ _ => rfl, BlkInv.same rfl rfl rfl rfl⟩
 
 theorem hHeadersTrack_framed (e : Env) (s : State) (L : Nat) (inp : Bytes) :
     Frame s (hHeadersTrack e s L inp).st := by
@@ -231,7 +244,7 @@ theorem hHeadersTrack_framed (e : Env) (s : State) (L : Nat) (inp : Bytes) :
     · exact trackLoop_framed _ _ _ _ _ _
 
 theorem txs_frame (s : State) (l : List TxEntry) : Frame s { s with txs := l } :=
-  ⟨fun _ => ⟨rfl, rfl⟩, rfl, rfl, rfl, rfl, rfl, id, id, fun _ _ => rfl⟩
+  ⟨fun _ => ⟨rfl, rfl⟩, rfl, rfl, rfl, rfl, rfl, id, id, fun _ _ => rfl, BlkInv.same rfl rfl rfl rfl⟩
 
 theorem txAnnounce_frame (s : State) (h : Bytes) : Frame s (txAnnounce s h).1 := by
   unfold txAnnounce
@@ -319,34 +332,51 @@ theorem completeBlock_frame (s : State) (h : Bytes) (hb : s.verified = false →
   split
   · rename_i heq
     refine ⟨fun hv => ?_, rfl, rfl, rfl, rfl, rfl, id, id,
-      fun c hc => lookupCmd_del_ne _ _ _ (fun hh => hc hh.symm)⟩
-    rw [hb hv] at heq; cases heq
+      fun c hc => lookupCmd_del_ne _ _ _ (fun hh => hc hh.symm), fun _ => ?_⟩
+    · rw [hb hv] at heq; cases heq
+    · exact ⟨fun h => (by cases h), fun h => (by cases h), fun h => (by cases h)⟩
   · exact Frame.refl s
+
+/-- `handleBlock` marking the request as streaming, and the handler's record. -/
+theorem streaming_frame (s : State) (r : BlockRec) (hq : s.blockReq.isSome = true) :
+    Frame s { s with blockReader := true, bh := r } :=
+  ⟨fun _ => ⟨rfl, rfl⟩, rfl, rfl, rfl, rfl, rfl, id, id, fun _ _ => rfl,
+   fun h => ⟨h.armed, fun _ => hq, h.handler⟩⟩
+
+theorem streaming_frame' (s : State) (hq : s.blockReq.isSome = true) :
+    Frame s { s with blockReader := true } :=
+  ⟨fun _ => ⟨rfl, rfl⟩, rfl, rfl, rfl, rfl, rfl, id, id, fun _ _ => rfl,
+   fun h => ⟨h.armed, fun _ => hq, h.handler⟩⟩
 
 theorem hBlock_framed (e : Env) (s : State) (L : Nat) (inp : Bytes)
     (hb : s.verified = false → s.blockReq = none) : Frame s (hBlock e s L inp).st := by
   unfold hBlock
   rw [finish_st]
-  have hc := completeBlock_frame s
   split
   · exact Frame.refl s
   · exact Frame.refl s
   · simp only []
     split
     · exact Frame.refl s
-    · split
+    · rename_i want hq
+      have hsome : s.blockReq.isSome = true := by rw [hq]; rfl
+      have hc : ∀ (t : State) (x : Bytes), Frame s t → t.verified = s.verified → t.blockReq = s.blockReq →
+          Frame s (completeBlock t x) := by
+        intro t x ht hv hr
+        exact Frame.trans ht (completeBlock_frame t x (fun hv' => by rw [hr]; exact hb (hv ▸ hv')))
+      split
       · exact Frame.refl s
       · split
-        · exact hc _ hb
+        · exact hc s _ (Frame.refl s) rfl rfl
         · split
-          · exact Frame.refl s
+          · exact streaming_frame' s hsome
+          · exact hc _ _ (streaming_frame' s hsome) rfl rfl
           · split
+            · exact streaming_frame s _ hsome
+            · exact hc _ _ (streaming_frame s _ hsome) rfl rfl
+            · exact hc _ _ (streaming_frame s _ hsome) rfl rfl
             · exact Frame.refl s
-            · exact hc _ hb
-            · split
-              · exact hc _ hb
-              · exact Frame.refl s
-              · exact hc _ hb
+            · exact hc _ _ (streaming_frame s _ hsome) rfl rfl
 
 /-- `handleExtended` before the node is ready: the payload is only discarded. -/
 theorem hExtended_notReady (e : Env) (s : State) (inp : Bytes) (hr : s.ready = false) :
@@ -400,7 +430,7 @@ theorem hHeadersVerifyBody_spec (e : Env) (s : State) (inp : Bytes) (hc : s.hsCo
   · exact Or.inl (harmless_refl s)
   · simp only []
     split
-    · exact Or.inl ⟨⟨fun _ => ⟨rfl, rfl⟩, rfl, rfl, rfl, rfl, rfl, id, fun _ => rfl, fun _ _ => rfl⟩, quiet_of_quietB rfl⟩
+    · exact Or.inl ⟨⟨fun _ => ⟨rfl, rfl⟩, rfl, rfl, rfl, rfl, rfl, id, fun _ => rfl, fun _ _ => rfl, BlkInv.same rfl rfl rfl rfl⟩, quiet_of_quietB rfl⟩
     · split
       · exact Or.inl (harmless_refl s)
       · exact Or.inl (harmless_refl s)
@@ -410,7 +440,7 @@ theorem hHeadersVerifyBody_spec (e : Env) (s : State) (inp : Bytes) (hc : s.hsCo
           · refine Or.inr ⟨hc, rfl, ⟨_, rfl⟩, ?_⟩
             intro hvo
             simp only [accept_verifyOnly s hvo, ↓reduceIte]
-          · refine Or.inl ⟨⟨fun _ => ⟨rfl, rfl⟩, rfl, rfl, rfl, rfl, rfl, id, fun _ => rfl, fun _ _ => rfl⟩, ?_⟩
+          · refine Or.inl ⟨⟨fun _ => ⟨rfl, rfl⟩, rfl, rfl, rfl, rfl, rfl, id, fun _ => rfl, fun _ _ => rfl, BlkInv.same rfl rfl rfl rfl⟩, ?_⟩
             intro x hx
             simp only [List.mem_cons, List.not_mem_nil, or_false] at hx
             rcases hx with rfl | rfl <;> simp [Effect.touches]
